@@ -265,7 +265,7 @@ func (in *httpInput) sources() sources {
 }
 
 func (in *httpInput) doc() string {
-	return fmt.Sprintf("POST /x?%s  path-vars=%s  headers=%s  body=%s (sent=%v)", in.query(), renderJSON(in.Path), renderJSON(in.Header), renderJSON(in.JSON), in.bodySent())
+	return fmt.Sprintf("POST(GET if no body) /x?%s  path-vars=%s  headers=%s  body=%s (sent=%v)", in.query(), renderJSON(in.Path), renderJSON(in.Header), renderJSON(in.JSON), in.bodySent())
 }
 
 func (in *httpInput) bodySent() bool { return in.SendBody || len(in.JSON) > 0 }
@@ -294,7 +294,7 @@ func (in *httpInput) request() *http.Request {
 			r.Header.Set("Content-Type", "application/json")
 		}
 	} else {
-		r, err = http.NewRequest(http.MethodPost, "http://localhost/x?"+in.query(), nil)
+		r, err = http.NewRequest(http.MethodGet, "http://localhost/x?"+in.query(), nil)
 	}
 	if err != nil {
 		panic("harness: " + err.Error())
